@@ -5,7 +5,7 @@ import Cpppo.Model.Tnet
 Values are written as prefix tokens: `i<int>` `f<hex>` `b0|b1` `n` `y<hex>` `t<cp.cp...>` (`t-` empty)
 `L<n>` followed by n values, `D<n>` followed by n times `k<cp.cp...>` value.
 
-    tn.rt <tailhex> <value tokens>    ->  reject | <dumphex> reject | <dumphex> <value tokens> / <resthex>
+    tn.rt <tailhex> <value tokens>    ->  reject | not-wf | <dumphex> reject | <dumphex> <value tokens> / <resthex>
     tn.parse <hex>                    ->  reject | <value tokens> / <resthex>
     tn.stream <hex,hex,...>           ->  {<value tokens>@<sent> }(end@<sent> | reject)
 -/
@@ -105,7 +105,10 @@ def handle : List String → Option String
     let v ← readV toks
     match dump? v with
     | none => pure "reject"
-    | some bs => pure (hexOfBytes bs ++ " " ++ showParse (parse (bs ++ tail)))
+    | some bs =>
+      -- a value the code serialises must satisfy the theorems' hypothesis (else the case is reported)
+      if !(wf v) then pure "not-wf" else
+      pure (hexOfBytes bs ++ " " ++ showParse (parse (bs ++ tail)))
   | ["tn.parse", hex] => do
     let bs ← bytesOfHex hex
     pure (showParse (parse bs))
